@@ -17,6 +17,7 @@ import (
 	"github.com/google/pprof/internal/verifsim/simexec"
 	"github.com/google/pprof/internal/verifsim/simos"
 	"github.com/google/pprof/internal/verifsim/simrt"
+	"github.com/google/pprof/profile"
 )
 
 // installTools scripts the external programs a session may start.
@@ -66,14 +67,35 @@ var sessionNoDot bool
 // (files on the simulated disk) instead of the in-memory one.
 var sessionOSWriter bool
 
+// sessionWatch, when non-nil, makes runInteractive take the session apart the
+// way driver.PProf does (defaults, flags, fetch, interactive) so that it has
+// the session's loaded profile in hand, and compare that profile with its
+// initial state every time the session asks for the next line: commands get
+// copies, the loaded profile itself never changes.
+var sessionWatch *profileWatch
+
+type profileWatch struct {
+	p         *profile.Profile
+	initial   string
+	mutatedAt int // index of the line after which the profile first differed, -1 none
+	diff      string
+}
+
 func runInteractive(x *xctx, cfg simrt.Config, prof []byte, flags []string, lines []string, perLine func(i int)) sessionOut {
 	simos.PutFile("/sim/cwd/prof.pb.gz", prof)
 	installTools(!sessionNoDot)
 	installSources()
 	var marks []int
 	ui := &simUI{lines: lines}
+	watch := sessionWatch
 	ui.onRead = func(u *simUI, prompt string) {
 		marks = append(marks, len(u.out))
+		if watch != nil && watch.p != nil && watch.mutatedAt < 0 {
+			if now := watch.p.String(); now != watch.initial {
+				watch.mutatedAt = len(marks) - 2
+				watch.diff = firstDiff(now, watch.initial)
+			}
+		}
 		if perLine != nil {
 			perLine(len(marks) - 1)
 		}
@@ -90,7 +112,29 @@ func runInteractive(x *xctx, cfg simrt.Config, prof []byte, flags []string, line
 	}
 	var out sessionOut
 	cfg.Tape = x.t
-	out.res = simrt.Exec(cfg, func() { out.err = PProf(o) })
+	out.res = simrt.Exec(cfg, func() {
+		if watch == nil {
+			out.err = PProf(o)
+			return
+		}
+		out.err = func() error {
+			defer cleanupTempFiles()
+			o := setDefaults(o)
+			src, cmd, err := parseFlags(o)
+			if err != nil {
+				return err
+			}
+			p, err := fetchProfiles(src, o)
+			if err != nil {
+				return err
+			}
+			if cmd != nil || src.HTTPHostport != "" {
+				return fmt.Errorf("not an interactive session")
+			}
+			watch.p, watch.initial, watch.mutatedAt = p, p.String(), -1
+			return interactive(p, o)
+		}()
+	})
 	x.note(out.res)
 	marks = append(marks, len(ui.out))
 	prev := 0
